@@ -1756,6 +1756,22 @@ class SymExec:
                 both = sorted([self._p(b)] + args, key=repr)
                 return opaque(name, both)
             return opaque(name, [self._p(b)] + args)
+        if name in ("map_or", "is_some_and", "map_or_else") and e["args"] and e["args"][-1].get("k") == "Closure" and "Option" in (e["recv"].get("ty") or ""):
+            # Option::map_or(default, |v| ..): the closure sees the payload; result = default (None) or the closure value (Some)
+            cl = e["args"][-1]
+            ov = self._p(self.eval(recv))
+            payload = opaque("optval", [ov])
+            snap = (dict(self.st) if self.st is not None else None, len(self.trace))
+            try:
+                default = self.eval(e["args"][0]) if name == "map_or" else (Poly.atom("false") if name == "is_some_and" else self.fresh("dflt"))
+                cv = self.apply_closure(cl, [payload])
+                if isinstance(cv, Poly) and isinstance(default, Poly):
+                    self.log("map_or", node=e, recv=ov, default=default, value=cv)
+                    return cv if cv == default else opaque("maporr", [default, cv, ov])
+            except Exception:
+                pass
+            self.st = snap[0]
+            del self.trace[snap[1]:]
         if name in ("unwrap", "expect") and e["recv"].get("ty", "").startswith(("std::option::Option", "std::result::Result", "&std::option::Option")):
             v = self.eval(recv)
             self.log("unwrap", node=e, recv=self._p(v), facts=self.path_facts())
